@@ -233,7 +233,9 @@ func runC17(c *core.Ctx) {
 		f := c.Fn(seedT + ".readerLoop")
 		_, cc := selectCase(f, seedT+".notifyReceivedRequest")
 		c.Need(cc != nil, "request case")
-		sends := f.CallsMatching(func(cs *core.CallSite) bool { return cs.Name == "utils/workers.Workers.Enqueue" && inClause(cc, cs.Pos()) })
+		sends := f.CallsMatching(func(cs *core.CallSite) bool {
+			return cs.Name == "utils/workers.Workers.Enqueue" && inClause(cc, cs.Pos())
+		})
 		c.ExpectAtLeast("response enqueue sites", len(sends), 1)
 		doneF := seedP + "sessionState.done"
 		notDone := func(ft core.Fact) bool {
@@ -413,7 +415,9 @@ func runC17(c *core.Ctx) {
 		}
 		adds := f.CallsMatching(func(cs *core.CallSite) bool { return isPendingAdd(f, cs) })
 		c.ExpectAtLeast("pending-size additions", len(adds), 1)
-		waits := core.Points(f.CallsMatching(func(cs *core.CallSite) bool { return cs.Name == seedT+".waitPendingResponsesBelowLimit" && inClause(cc, cs.Pos()) }))
+		waits := core.Points(f.CallsMatching(func(cs *core.CallSite) bool {
+			return cs.Name == seedT+".waitPendingResponsesBelowLimit" && inClause(cc, cs.Pos())
+		}))
 		for _, ad := range adds {
 			// a wait precedes each add in the same iteration
 			ok, wit := precedesLocally(f, waits, ad.Pt)
